@@ -76,9 +76,13 @@ def get_chain_name(chain):
 
 @contextlib.contextmanager
 def temp_var(vm):
-    params = vm.get_all_dic()
-    yield vm
-    vm.set_all(params)
+    # the stored values (get_all_dic() is the masked view inside mask_params), restored also on an exception
+    params = {k: v.numpy() for k, v in vm.variables.items()}
+    try:
+        yield vm
+    finally:
+        for k, v in params.items():
+            vm.variables[k].assign(v)
 
 
 def flatten_all(x):
